@@ -88,7 +88,8 @@ func (s *server) HandleRequest(ctx *types.HttpContext) {
 					transport.OnRequest(ctx)
 				}
 			} else {
-				abortRequest(ctx, UNKNOWN_SID, map[string]any{"sid": sid})
+				// the session closed after the request had been verified
+				s.emitAbortRequest(ctx, UNKNOWN_SID, map[string]any{"sid": sid})
 			}
 		} else {
 			if codeMessage, t := s.Handshake(ctx.Query().Peek("transport"), ctx); t == nil {
